@@ -7,6 +7,8 @@ as `fixed` is a regression and reported as a VIOLATION; a failing witness of an 
 printed as KNOWN-FINDING."""
 from __future__ import annotations
 
+import os
+
 from . import impl
 from .impl import (
     LayeredArchitecture,
@@ -339,6 +341,52 @@ def w_c17():
         return f"label of a module whose name contains a regex metacharacter: {labels}"
 
 
+# ----------------------------------------------------------------------------- C09 / C15 (second round)
+def w_c09a():
+    files = {"r/app/a/x.py": "import r.app.b.y.z\n", "r/app/b/y/z.py": "import r.app.c\n",
+             "r/app/c.py": "import r.app.a.gone\n"}
+    with Project(files) as p:
+        full = _imports(scan(p, "r", "r/app"))
+        flat = _imports(scan(p, "r", "r/app", level_limit=1))
+    want = {(".".join(u.split(".")[:3]), ".".join(v.split(".")[:3])) for u, v in full}
+    want = {(u, v) for u, v in want if u != v}
+    if flat != want:
+        return (f"level_limit=1 is not the quotient of the full scan: an import of a non-module (r.app.a.gone) is flattened onto "
+                f"the existing module r.app.a: extra edges {sorted(flat - want)}")
+
+
+def w_c15a():
+    g = make_graph(["pkg", "pkg.x", "pkg.y"], [("pkg.x", "pkg.y")])
+
+    def run(order):
+        arch = LayeredArchitecture()
+        for name in order:
+            if name == "A":
+                arch = arch.layer("A").containing_modules(["pkg.x"])
+            else:
+                arch = arch.layer("B").have_modules_with_names_matching(r"pkg\.(x|y)$")
+        return _outcome(lambda: _layer_rule(arch, "A", "should_not", "access_layers_that", "B").assert_applies(g))[:2]
+
+    a, b = run("AB"), run("BA")
+    if a != b:
+        return f"layer rule outcome depends on the order in which overlapping layers were defined: A,B -> {a[0]}; B,A -> {b[0]}"
+
+
+def w_c15b():
+    import subprocess
+    import sys
+
+    code = ("import sys; sys.path.insert(0, %r); sys.path.insert(0, %r)\n"
+            "from harness.props.c06 import impl_parse\n"
+            "print(impl_parse('@startuml\\n[a] as x\\n[b] as x\\nx --> [c]\\n@enduml'))\n") % (impl.SRC, os.path.dirname(os.path.dirname(os.path.abspath(__file__))))
+    outs = set()
+    for hs in range(8):
+        r = subprocess.run([sys.executable, "-c", code], env=dict(os.environ, PYTHONHASHSEED=str(hs)), capture_output=True, text=True)
+        outs.add(r.stdout.strip() or r.stderr.strip()[-200:])
+    if len(outs) > 1:
+        return f"parse result of a diagram that declares one alias for two components depends on PYTHONHASHSEED: {sorted(outs)}"
+
+
 WITNESSES = {
     "F-C02a": ("C02", w_c02a),
     "F-C02b": ("C02", w_c02b),
@@ -363,6 +411,9 @@ WITNESSES = {
     "F-C16": ("C16", w_c16),
     "F-C16b": ("C16", w_c16b),
     "F-C17": ("C17", w_c17),
+    "F-C09a": ("C09", w_c09a),
+    "F-C15a": ("C15", w_c15a),
+    "F-C15b": ("C15", w_c15b),
 }
 
 
